@@ -1,7 +1,7 @@
 (* C06 — proof-number solver verdicts agree with the game-theoretic truth.
    Only statements, `exact`, and Print Assumptions live here.  Models: Pn.v (prove/pn.go without PN-squared; entry point
    PnRun.pn_run with the constants of /repo), Pn2.v (prove/pn.go with the PN-squared switch; entry point Pn2Run.pn2_run),
-   Dfpn.v (prove/dfpn.go).  Proofs: AndOr.v, AndOrS.v, PnFacts.v, PnRunFacts.v, Pn2Facts.v, Pn2RunFacts.v, Pn2Equiv.v, DfpnFacts.v,
+   Dfpn.v (prove/dfpn.go).  Proofs: AndOr.v, AndOrS.v, PnFacts.v, PnRunFacts.v, Pn2Facts.v, Pn2RunFacts.v, Pn2Equiv.v, Pn2Stops.v, DfpnFacts.v,
    DfpnFactsL.v; non-vacuity examples: PnRunFacts.v, Pn2RunFacts.v, DfpnExample.v.
 
    The game the claims are about (PnFacts.v), for the attacker colour aw:
@@ -13,7 +13,7 @@
                   the line is not a win (AndOrS.v). *)
 From Coq Require Import NArith ZArith List Bool.
 Require Import Board Move GameOver Eval Search AndOr AndOrS Pn PnRun PnFacts PnRunFacts Dfpn DfpnFacts DfpnFactsL.
-Require Import Pn2 Pn2Run Pn2Facts Pn2RunFacts Pn2Equiv.
+Require Import Pn2 Pn2Run Pn2Facts Pn2RunFacts Pn2Equiv Pn2Stops.
 Require Import Generated.Consts.
 Import ListNotations.
 Open Scope N_scope.
@@ -216,12 +216,20 @@ Theorem C06_pn2_disproven_attractor_partial :
 Proof. exact pn2_disproven_attractor. Qed.
 Print Assumptions C06_pn2_disproven_attractor_partial.
 
+(* 11. The two "cannot happen" stops of Pn2.v do not happen (given fuel for at least one second-level iteration): a run of
+   the model never ends with stop reason 4 (a second-level search that returns without expanding its root - the code would
+   then compute the numbers of an unexpanded node from its value) or 5 (a path to `current` through a solved child).  So a
+   model run stops where the code stops (0), where it panics (1), on saturated numbers (3, see Pn.pick_kid) or out of fuel (2). *)
+Theorem C06_pn2_no_impossible_stop :
+  forall basis aw cfg threshold pn2on k2 dfuel2, k2 <> O ->
+  forall iters dfuel p0 root s result mv why,
+    prove_pn2 basis aw cfg threshold pn2on k2 dfuel2 iters dfuel p0 = (root, s, result, mv, why) -> why <> 4 /\ why <> 5.
+Proof. exact pn2_no_impossible_stop. Qed.
+Print Assumptions C06_pn2_no_impossible_stop.
+
 (* Not proved (tested by the check: model = solver on every generated run, oracle = exact retrograde solution):
      the move returned by DFPN with `proven` (the oracle judges it);
      dfpn_disproven_sound for runs WITH repetitions: open in the design (a bound derived from a repetition on one path is
                             stored in the table and reused on other paths); the oracle hunts for a wrong `disproven` on
                             the cyclic region of the solved graphs (positions where the attacker can only shuffle - the
-                            only roots where the search meets repetitions) and has found none;
-     that the two "cannot happen" stops of Pn2.v (Stop2 4: a second-level search that returns without expanding its root;
-                            Stop2 5: a `current` path through a solved node) never occur: the driver reports them as
-                            mismatches if they do. *)
+                            only roots where the search meets repetitions) and has found none. *)
